@@ -662,10 +662,19 @@ func (a *c07Run) command(i int, op Op) {
 	if isLeader {
 		if !res.IsError() && len(a.c.log) > logBefore {
 			// the entry of this command must carry the client's database
+			// (an identical command forwarded earlier by a client on another database may be committed during
+			// this step as well, so the alarm is raised only if NO entry with these arguments carries this database)
+			var same, right [][]string
 			for _, c := range a.logCommands()[logBefore:] {
-				if len(c) == len(op.Args)+1 && equalFoldStrings(c[:len(c)-1], op.Args) && c[len(c)-1] != "@db"+strconv.FormatInt(db, 10) {
-					a.fail("wrong-db/leader", fmt.Sprintf("op %d %q issued with database %d selected was committed as %v", i, op.Args, db, c))
+				if len(c) == len(op.Args)+1 && equalFoldStrings(c[:len(c)-1], op.Args) {
+					same = append(same, c)
+					if c[len(c)-1] == "@db"+strconv.FormatInt(db, 10) {
+						right = append(right, c)
+					}
 				}
+			}
+			if len(same) > 0 && len(right) == 0 {
+				a.fail("wrong-db/leader", fmt.Sprintf("op %d %q issued with database %d selected was committed as %v", i, op.Args, db, same))
 			}
 		}
 		if op.Kind == "setget" && !res.IsError() {
